@@ -7,7 +7,7 @@ From VF Require Import Base Iter Enc Lru LruStep Slru TwoQ Arc CacheStep Tiny WT
   BaseFacts LruFacts Counts SlruFacts TwoQFacts ArcFacts TinyFacts WTinyFacts Run C01Proofs.
 From Coq Require Import NArith ZArith Reals.
 From Flocq Require Import Core.Core IEEE754.Binary IEEE754.Bits IEEE754.BinarySingleNaN.
-From VF Require Import Sizing SizingFacts.
+From VF Require Import Sizing SizingFacts Conv ConvFacts LruFacts.
 
 Theorem C05_slru_total : forall (pc fc : nat) (ops : list sop) (o : sop),
   (1 <= pc)%nat -> (1 <= fc)%nat ->
@@ -198,6 +198,25 @@ Theorem C05_builder_defaults :
   bld_step [141; 1; 1; 8]%Z = Some [0; 8; 2; 4]%Z.
 Proof. vm_compute. repeat split. Qed.
 
+(** ** conversions: [FromIterator] and the eleven [From] impls all collect the pairs, size the cache by
+    [max 1 (number of pairs)] and [put] them in iteration order ([Lru.from_iter]): a total function whose result
+    is a well-formed cache of capacity at least 1 that has evicted nothing — every key of the source is retained
+    with the value of its last occurrence *)
+Theorem C05_conversions : forall l,
+  let s := from_iter l in
+  cap s = Nat.max 1 (length l) /\ lru_inv s /\
+  (forall k, Base.find k (items s) = last_val k l) /\ (length (items s) <= length l)%nat.
+Proof. exact from_iter_spec. Qed.
+
+Theorem C05_conversion_total : forall src pairs l,
+  dec_pairs pairs = Some l -> exists out, conv_step (142 :: src :: pairs)%Z = Some out.
+Proof. intros src pairs l E. cbn [conv_step]. rewrite E. eauto. Qed.
+
+Example C05_conversion_examples :
+  conv_step [142; 0]%Z = Some [1; 0]%Z /\
+  conv_step [142; 4; 1; 10; 2; 20; 1; 11]%Z = Some [3; 2; 1; 11; 2; 20]%Z.
+Proof. vm_compute. split; reflexivity. Qed.
+
 Print Assumptions C05_slru_total.
 Print Assumptions C05_twoq_total.
 Print Assumptions C05_arc_total.
@@ -218,3 +237,5 @@ Print Assumptions C05_builder_total.
 Print Assumptions C05_builder_setters.
 Print Assumptions C05_builder_finalize.
 Print Assumptions C05_builder_defaults.
+Print Assumptions C05_conversions.
+Print Assumptions C05_conversion_total.
